@@ -383,6 +383,7 @@ func main() {
 	root := fmt.Sprintf("/dev/shm/verif_crashx_%d", os.Getpid())
 	os.MkdirAll(root, 0o755)
 	defer os.RemoveAll(root)
+	ev.OnExit(func() { os.RemoveAll(root) })
 
 	// 1. reference traces (twice: must be identical => the child is deterministic)
 	type ref struct {
